@@ -13,7 +13,7 @@ Inv ==
     /\ lock \in Reqs \cup {0}
     /\ initDone \in BOOLEAN
     /\ inits \in Nat
-    /\ req \in [Reqs -> [pc : STRING, badctx : BOOLEAN, out : STRING, body : STRING, status : Nat, sent : STRING]]
+    /\ req \in [Reqs -> [pc : STRING, badctx : BOOLEAN, out : STRING, body : STRING, status : Nat, sent : STRING, ran : BOOLEAN]]
     /\ \A j \in Reqs : req[j].pc \in {"init", "initret"} <=> lock = j
     /\ lock # 0 => ~initDone
     /\ inits = IF initDone \/ (\E j \in Reqs : req[j].pc = "initret") THEN 1 ELSE 0
